@@ -219,6 +219,18 @@ func (w *World) execute(ctx context.Context, sd *stepData, in map[string]any, ke
 			}
 		}
 	}
+	if b.AfterGateMs > 0 {
+		deadline := time.Now().Add(time.Duration(b.AfterGateMs) * time.Millisecond)
+		for {
+			idx := sleepCtx(time.Until(deadline), cancelCh, ctx.Done())
+			if idx < 0 {
+				break
+			}
+			if id, data, done := onStop(idx); done {
+				return id, data
+			}
+		}
+	}
 	_ = cancelled
 	switch b.Outcome {
 	case "crash", "bad_output", "undeclared":
